@@ -17,7 +17,8 @@ RULE = ('Transactions are generated field by field (version/locktime/sequence bo
         'one-byte items, coinbases with and without witness, mixed witness presence), serialised by ref/wire and '
         'parsed with strict=True and strict=False. Blocks: random header + coinbase + 0..5 transactions. '
         'Non-trivial = any boundary shape (count or length on a Comp[incl. items of 65534..65537 bytes and explicitly encoded PUSHDATA1/2/4 pushes] actSize boundary, empty or one-byte script or '
-        'witness item, coinbase, segwit with a witness-less input, non-standard script); distinct by raw bytes. [blocks: five readers incl. one transaction per call and mixed with limited bulk reads; header fields whose bytes are ASCII hex digits] [every round-tripped transaction is also read from streams with data before and after it] [blocks: dictionary reader between object reads]')
+        'witness item, coinbase, segwit with a witness-less input, non-standard script); distinct by raw bytes. [blocks: five readers incl. one transaction per call and mixed with limited bulk reads; header fields whose bytes are ASCII hex digits] [every round-tripped transaction is also read from streams with data before and after it] [blocks: dictionary reader between object reads]'
+        ' [apiwit: ready-made witness stacks handed to add_input as list or single byte string, read back by the reference parser]')
 ASSUMPTIONS = ['ref/wire.py serialises/parses transactions and blocks per the protocol (self-tested on the genesis '
                'block and BIP143 example)',
                'strict=True may refuse transactions whose scripts the library does not understand (counted as '
